@@ -30,7 +30,8 @@ META = {
         'through Version.nearest.  (D5) a timestamp with a zone name is converted with astimezone (the written instant is kept; clause shared with C17.D2); (D3) also: every rebinding of the document text in parser.parse is the decode or a tabled framing step, never a rewrite of the text (normalisation, replace, splitlines).  Not decided: values computed by float/strptime/iso8601/tz conversion; PEG '
         'commitment effects beyond D2 (the regular abstraction can miss, never invent, a spec-vs-reader failure).'
         ' Also (D5): the handler around the zone look-up catches what zoneinfo.timezone raises for a name this host cannot map (the stamp is kept, the document is not rejected).'
-        ' Also (D1): quantity split (number token vs unit start).  (D3) parse entries compare the mode only after _parse_mode.'),
+        ' Also (D1): quantity split (number token vs unit start).  (D3) parse entries compare the mode only after _parse_mode.'
+        ' Also (D1): the time literal is converted exactly (strptime %f on six digits, or zero-padded text then int()).  (D5) astimezone() sits in a handler that catches OverflowError.'),
     'rule_text': 'obligations = spec kinds x versions (inclusion + tie hazards), structure inclusion, action facts, '
                  'escape table rows, framing facts',
     'trusted_base': ['spec/zinc_spec.json transcribes the published grammar; pyparsing Or = longest match'],
@@ -63,6 +64,7 @@ def run(ctx):
     c17._api(ctx, ctx.model, rule='C03.D5', only=('zincparser',))
     c17.zone_applied(ctx, ctx.model, 'C03.D5', 'zincparser', '_parse_datetime', 'zinc', catches=True)
     _zinc.quantity_split(ctx, 'C03.D1')
+    _zinc.time_literal_exact(ctx, 'C03.D1', 'zincparser')
     from . import _dump
     _dump.mode_sanitised(ctx, 'C03.D3', 'parser')
 
